@@ -98,6 +98,21 @@ func (tr *c05Tracker) opened(p *Play, e *h.Ev) {
 			delete(tr.misses, id)
 		}
 	}
+	// the hand's own player list holds exactly the dealt-in players, once each
+	inList := map[string]int{}
+	for gp := range t.State.GamePlayerIndexes {
+		inList[h.PidOf(t, gp)]++
+	}
+	for id := range dealt {
+		if inList[id] != 1 {
+			c.Violate("C05/dealt-in-player-not-in-the-hands-list", fmt.Sprintf("hand %d: %s is marked dealt in and appears %d times in the hand's player list %v", t.State.GameCount, id, inList[id], t.State.GamePlayerIndexes), w())
+			return
+		}
+	}
+	if len(inList) != len(dealt) {
+		c.Violate("C05/hands-list-holds-a-player-not-dealt-in", fmt.Sprintf("hand %d: the hand's player list names %d players, %d are marked dealt in", t.State.GameCount, len(inList), len(dealt)), w())
+		return
+	}
 	if len(dealt) < 2 {
 		c.Violate("C05/hand-opened-with-fewer-than-two", fmt.Sprintf("hand %d opened with %d dealt-in players", t.State.GameCount, len(dealt)), w())
 		return
@@ -352,7 +367,7 @@ func init() {
 			}
 			po := PlayOpts{
 				Hands:    8 + c.R.Intn(13),
-				Churn:    Churn{BetweenP: 0.6, MidP: 0.2, Rebuy: true, BuyIn: true, Leave: true, AddOn: true, AddOnBusted: true, MidJoin: true, MidLeaveOther: true, MidTopup: false, RandomSeat: true, ResumePaused: true, SitOut: true, Batch: true},
+				Churn:    Churn{BetweenP: 0.6, MidP: 0.2, Rebuy: true, BuyIn: true, Leave: true, AddOn: true, AddOnBusted: true, MidJoin: true, MidLeaveOther: true, MidTopup: false, RandomSeat: true, ResumePaused: true, SitOut: true, SitOutOften: true, Batch: true},
 				Gen:      h.GenOpts{MinSeats: 3, ShortStacks: c.R.Intn(2) == 0},
 				Policies: []string{"maniac", "callstation", "random"},
 				Decks:    []string{"rank", "seeded"},
